@@ -1,9 +1,97 @@
-"""C07 penalty clause: each step advances the cycle counter by one plus the miss penalties incurred in it."""
+"""C07 penalty clause: each step advances the cycle counter by one plus the miss penalties incurred in that step."""
+from __future__ import annotations
+
+import itertools
+import time
+
+from vf.adapt import rv, spy
+from vf.checks import c03
+from vf.engine.core import Partial, pmap
+from vf.ref.cache import RefCache
+
+ICACHES = [(0, 0, 1, "lru"), (1, 0, 1, "lru"), (0, 1, 2, "plru"), (1, 1, 2, "lru"), (0, 2, 1, "lru"), (0, 0, 2, "plru")]
+DCACHES = c03.PROG_CACHES
+PENS = (0, 1, 3, 7)
 
 
-def run_part(ctx):
-    pass
+def alphabet():
+    A = list(c03.mem_alphabet())
+    A += [("beq", 0, 5, 5, 8), ("bne", 0, 5, 5, 8), ("jal", 28, 0, 0, 8), ("add", 6, 5, 5, 0), ("beq", 0, 0, 0, -4)]
+    return A
+
+
+def penalty_case(prog, ic, dc, pi, pd, maxcycles=160):
+    ib, bb, ways, policy = ICACHES[ic]
+    dib, dbb, dways, kind, dpolicy = DCACHES[dc]
+    sim = rv.make_sim(rv.FIVE, prog, c03.PROG_REGS, c03.PROG_WORDS, icache=rv.cache_opts(ib, bb, ways, "wb", policy, pi),
+                      dcache=rv.cache_opts(dib, dbb, dways, kind, dpolicy, pd))
+    flog = spy.spy_fetch(sim)
+    dlog = spy.spy_data(sim)
+    iref = RefCache(ib, bb, ways, "wb", policy, pi)
+    dref = RefCache(dib, dbb, dways, kind, dpolicy, pd)
+    pm = sim.state.performance_metrics
+    n = 0
+    total_extra = 0
+    while not sim.is_done() and n < maxcycles:
+        c0, f0, d0 = pm.cycles, len(flog), len(dlog)
+        try:
+            sim.step()
+        except rv.InstructionExecutionException:
+            break
+        n += 1
+        extra = 0
+        for a, _o in flog[f0:]:
+            extra += iref.access(a, False, True)[1]
+        for k, w, a, counted in dlog[d0:]:
+            extra += dref.access(a, k == "w", counted)[1]
+        total_extra += extra
+        if pm.cycles - c0 != 1 + extra:
+            return [("penalty-per-step", f"step {n}: cycle counter advanced by {pm.cycles - c0}, expected 1 + miss penalties {extra}")], iref, dref, total_extra
+    return [], iref, dref, total_extra
+
+
+def shard_fn(shard):
+    length, first, pairing = shard
+    A = alphabet()
+    p = Partial()
+    for tail in itertools.product(range(len(A)), repeat=length - 1):
+        idx = (first,) + tail
+        prog = [A[i] for i in idx]
+        if pairing == "full":
+            combos = [(ic, dc) for ic in range(6) for dc in range(6)]
+        else:
+            combos = [(k, (k + sum(idx)) % 6) for k in range(6)]
+        for ic, dc in combos:
+            pi = PENS[(ic + dc + idx[0]) % 4]
+            pd = PENS[(ic + 2 * dc + 1 + idx[-1]) % 4]
+            bad, iref, dref, extra = penalty_case(prog, ic, dc, pi, pd)
+            p.evaluations += 1
+            p.traces += 1
+            if extra and (iref.hits or dref.hits):
+                p.nontrivial += 1
+            if "miss" in dref.events and pd:
+                p.counters["d-penalty"] += 1
+            if "miss" in iref.events and pi:
+                p.counters["i-penalty"] += 1
+            for f, d in bad:
+                p.violation(dict(oracle="documented-schedule", field=f), dict(kind="penalty", prog=[list(i) for i in prog], ic=ic, dc=dc, pi=pi, pd=pd),
+                            f"[{rv.prog_text(prog)}] icache#{ic} pen={pi} dcache#{dc} pen={pd}: {d}", size=(length, idx, ic, dc))
+    if first == 0:
+        p.sample(dict(kind="penalty", prog=[list(A[(3 * i) % len(A)]) for i in range(length)], ic=0, dc=1, pi=3, pd=7))
+    return p
 
 
 def replay(case):
-    return []
+    prog = [tuple(i) for i in case["prog"]]
+    bad, _i, _d, _e = penalty_case(prog, case["ic"], case["dc"], case["pi"], case["pd"])
+    return [(dict(oracle="documented-schedule", field=f), f"[{rv.prog_text(prog)}]: {d}") for f, d in bad]
+
+
+def run_part(ctx):
+    n = len(alphabet())
+    for L, pairing in ((1, "full"), (2, "full"), (3, "paired")) + (() if ctx.quick else ((3, "full"),)):
+        t0 = time.time()
+        part = pmap(shard_fn, [(L, f, pairing) for f in range(n)])
+        part.transitions = 0
+        ctx.space(f"penalty-clause-len{L}-{pairing}", part, t0, length=L, icaches=6, dcaches=6, penalties=list(PENS), pairing=pairing)
+    ctx.require("d-penalty", "i-penalty")
